@@ -58,6 +58,29 @@ def random_grammar(rng):
     return "grammar g; " + " ".join(rules)
 
 
+# LALR(1)-but-not-SLR(1) shapes: FOLLOW sets alone put a shift and a reduction (or two reductions) into one cell that the
+# LALR(1) look-aheads keep apart, so directives naming the symbols of such a cell must change nothing
+NOT_SLR = [
+    ('start = l "=" r | r; l = "*" r | "i"; r = l;', ['"="', '"*"', '"i"'], ['<r = l>', '<l = "i">']),
+    ('start = "*" "i" "=" e | "let" e "=" e | e; e = e "+" e | "*" "i" | "i";', ['"*"', '"="', '"+"', '"i"', '"let"'], []),
+    ('start = a "x" | "y" a "z" | "w" "z" | "y" "w" "x"; a = "w";', ['"x"', '"y"', '"z"', '"w"'], ['<a = "w">']),
+    ('start = a "x" "x" | b "x" "y" | "z" a "y"; a = "w"; b = "w";', ['"x"', '"y"', '"z"', '"w"'], []),
+    ('start = "(" e ")" | e; e = t "+" e | t; t = "i" | "(" e ")" "!";', ['"("', '")"', '"+"', '"i"', '"!"'], ['<e = t>']),
+]
+
+
+def with_directives(rng, body, handles, extra):
+    """the grammar text `body` under a random precedence table over some of `handles` (terminals) and `extra` (rule handles)"""
+    pool = [h for h in handles if rng.random() < 0.75] + [h for h in extra if rng.random() < 0.4]
+    rng.shuffle(pool)
+    dirs = []
+    while pool:
+        k = rng.choice([1, 1, 2])
+        grp, pool = pool[:k], pool[k:]
+        dirs.append("%s %s;" % (rng.choice(["@left", "@right", "@left", "@right", "@none"]), " ".join(grp)))
+    return "grammar g; %s %s" % (" ".join(dirs), body)
+
+
 def parse_lalr(line):
     kind, _, rest = line.partition(" ")
     f = dict(x.split("=", 1) for x in rest.split(" ") if "=" in x)
@@ -214,6 +237,12 @@ def run(ctx):
         cases.append((t, (ops, levels)))
     for _ in range(500 if quick else 6000):
         cases.append((random_grammar(rng), None))
+    for _ in range(200 if quick else 2000):
+        body, hs, ex = rng.choice(NOT_SLR)
+        cases.append((with_directives(rng, body, hs, ex), None))
+    for _ in range(200 if quick else 2000):
+        t = random_grammar(rng)[len("grammar g; "):]
+        cases.append((with_directives(rng, t, ['"x"', '"y"', '"z"', '"w"'], []), None))
     impl = ctx.run_impl_par("lalr", [hx(t.encode()) for t, _ in cases], timeout=900, isolate=True)
     model = ctx.run_model_par("lalr", [l.split(" ", 1)[1] if " " in l else "nt=0 nnt=0 start=0 prods= levels=" for l in impl])
     stats = {"accepted": 0, "rejected_conflict": 0, "rejected_earlier": 0, "tables_isomorphic_to_reference": 0, "tables_well_formed": 0, "sentences_compared": 0, "expressions_compared": 0, "known_order_dependence": 0}
@@ -313,7 +342,7 @@ def run(ctx):
                     break
     ctx.witness_hits()
     cov = {"evaluations": len(cases), "distinct_nontrivial": len(distinct),
-           "rule": "textbook families (SLR; LALR-not-SLR; LR(1)-not-LALR; inherently ambiguous; dangling else with and without directives; epsilon and unit productions; unary operators with rule handles; non-associative operators), operator grammars with random precedence tables (1-5 operators, random levels and associativities, sometimes an operator left without a directive) and random grammars (2-4 non-terminals, 2-4 terminals); per grammar: accept/reject against the reference construction, table entry-for-entry (up to state renaming), WF of the implementation's table, every terminal string up to length 6 (sampled above 3000 per length) through the table against a bounded-language computation, operator expressions against precedence climbing; non-trivial = distinct grammar that reached the table construction",
+           "rule": "textbook families (SLR; LALR-not-SLR; LR(1)-not-LALR; inherently ambiguous; dangling else with and without directives; epsilon and unit productions; unary operators with rule handles; non-associative operators), LALR(1)-but-not-SLR(1) shapes and random grammars under random precedence tables that name the symbols of the cells FOLLOW sets alone would put in conflict, operator grammars with random precedence tables (1-5 operators, random levels and associativities, sometimes an operator left without a directive) and random grammars (2-4 non-terminals, 2-4 terminals); per grammar: accept/reject against the reference construction, table entry-for-entry (up to state renaming), WF of the implementation's table, every terminal string up to length 6 (sampled above 3000 per length) through the table against a bounded-language computation, operator expressions against precedence climbing; non-trivial = distinct grammar that reached the table construction",
            "samples": [cases[0][0], cases[len(TEXTBOOK)][0]], "outcomes": stats, "correspondence_disagreements": ncorr,
            "explanation": "partial proof (driver soundness for every WF table; precedence rule) + translation validation per grammar (table = reference LALR(1) table, WF evaluated on the implementation's table so that the soundness theorem applies to it) + bounded language and tree comparison; completeness of LALR(1) construction and tree shape in general are not proved",
            "trusted_base": TRUSTED_BASE + ["Emerge.LALR.build as the definition of 'the LALR(1) table of the grammar with the documented precedence rule' (compiled evaluation)", "the dependency's lookahead.BuildParsingTable (validated per grammar)", "Python shift-reduce driver, bounded-language computation and precedence climbing in checks/c06.py"]}
